@@ -88,7 +88,42 @@ UNKNOWN_MEDIATYPE = S.Kind("UNKNOWN_MEDIATYPE", st.one_of(
 ).filter(lambda w: w and w not in SUPPORTED_MEDIATYPES))
 
 
+def run_e2e(case):
+    """runs in a process of its own (vlib/props/c07_e2e.py): full client stacks with real sessions against the server double"""
+    import os
+    import sys
+    import json
+    import subprocess
+    from ..core import HarnessError
+    from ..kit import env as envkit
+    out = Outcome()
+    verif_dir = os.path.dirname(os.path.dirname(os.path.dirname(os.path.abspath(__file__))))
+    r = subprocess.run([sys.executable, "-m", "vlib.props.c07_e2e", json.dumps(case)], cwd=verif_dir, stdout=subprocess.PIPE,
+                       stderr=subprocess.PIPE, timeout=600, env=dict(os.environ, PYTHONDONTWRITEBYTECODE="1", TMPDIR=envkit.scratch_root()))
+    line = [l for l in r.stdout.decode("utf-8", "replace").splitlines() if l.startswith("OUTCOME ")]
+    if r.returncode != 0 or not line:
+        raise HarnessError("e2e_unpresentable child failed rc=%s: %s" % (r.returncode, r.stderr.decode("utf-8", "replace")[-600:]))
+    d = json.loads(line[-1][len("OUTCOME "):])
+    out.label(*d["labels"])
+    for v in d["violations"]:
+        out.fail(v["kind"], v["key"], v["detail"])
+    out.info = d.get("info")
+    return out
+
+
+E2E_KINDS = ["revoke", "revoke_default_type_omitted", "unknown_fields", "image_as_text", "location", "text"]
+
+
+def _enum_e2e():
+    for group in (False, True):
+        for established in (False, True):
+            yield {"sub": "e2e_unpresentable", "kind": "e2e", "group": group, "established": established, "third": group and established,
+                   "kinds": ["revoke", "text", "unknown_fields"]}
+
+
 def run_case(case):
+    if case.get("sub") == "e2e_unpresentable":
+        return run_e2e(case)
     out = Outcome()
     configs = case.get("configs") or ALL_CONFIGS
     kind = case["kind"]
@@ -353,9 +388,12 @@ def plan(tier):
     bad = S.N("notification", {"id": S.ID, "from": S.JID, "type": S.CONST("picture"), "t": S.TS, "notify": S.OPT(S.TEXT)},
               children=[S.CH(S.N(S.WORD("request", "other")), 0, 1)])
     strategies.append(("picture_bad", S.shape_strategy(bad).map(lambda t: {"sub": "ack", "kind": "picture_bad", "tree": S.tree_to_json(t)}), n))
+    strategies.append(("e2e_unpresentable",
+                       st.builds(lambda g, e, t, ks: {"sub": "e2e_unpresentable", "kind": "e2e", "group": g, "established": e, "third": t, "kinds": ks},
+                                 st.booleans(), st.booleans(), st.booleans(), st.lists(st.sampled_from(E2E_KINDS), min_size=1, max_size=4)), 2 * n))
     return {
         "shards": 16,
-        "enumerations": [("unknown_mediatype_fragments", _enum_mediatype_fragments)],
+        "enumerations": [("unknown_mediatype_fragments", _enum_mediatype_fragments), ("e2e_unpresentable_basic", _enum_e2e)],
         "exhaustive": ["unknown_mediatype_fragments"],
         "strategies": strategies,
         "shrink": "hypothesis",
